@@ -46,6 +46,14 @@ def unit_load_data(tier=None, seed=None):
         I.assume(z3.And(n >= 1, ii >= 0, ii < n))
         pcls = sx.ClassVal("SymbolicPathList", [sx.OBJECT], {})
         pcls.ns["__len__"] = sx.Builtin("len", lambda I, self: SInt(n))
+
+        def path_at(I, self, k):
+            if isinstance(k, SInt) and z3.eq(z3.simplify(k.term), ii):
+                return SAtom(z3.Int("path_ii"))
+            raise sx.Unsupported("element of the symbolic path list at another index")
+        pcls.ns["__getitem__"] = sx.Builtin("getitem", path_at)
+        # loops over the files by index are verified for one arbitrary index as well
+        I.ghost["havoc_range"] = (n, ii)
         paths = sx.Obj(pcls)
         paths.attrs["__symbolic_enumerate__"] = (SInt(ii), SAtom(z3.Int("path_ii")))
         I.lib["afmformats.find_data"] = lambda I, path, modality=None: (st.update(find_modality=modality), paths)[1]
@@ -201,10 +209,17 @@ def unit_qmap_features(tier=None, seed=None):
         I.assume(z3.Implies(z3.And(pres["success"], succ), pres["params_fitted"]))
         rated = I.fork(z3.Bool("has_rating"))
         rval = SReal(z3.Real("rating_value"))
+        # the fit the cached rating was computed for (Indentation.rate_quality stores the fit hash, or "none")
+        rhash, curhash = SAtom(z3.Int("rated_fit_hash")), SAtom(z3.Int("current_fit_hash"))
+        if "hash" in fp.map.d:
+            fp.map.d["hash"][1] = curhash
+        # representation invariant: a successful fit has a hash (C03/C12), and no fit hash is the string "none"
+        I.assume(z3.Implies(z3.And(pres["success"], succ), pres["hash"]))
+        I.assume(curhash.term != V.str_code("none"))
         idnt = sx.Obj(sx.ClassVal("Indentation", [sx.OBJECT], {}))
-        idnt.attrs.update(fit_properties=fp, _rating=("h", "r", "t", None, None, rval) if rated else None)
+        idnt.attrs.update(fit_properties=fp, _rating=(rhash, "r", "t", None, None, rval) if rated else None)
         fn, _ = cls.find(name)
-        st.update(name=name, pres=pres, succ=succ, pt=pt, rated=rated, rval=rval, fn=fn)
+        st.update(name=name, pres=pres, succ=succ, pt=pt, rated=rated, rval=rval, fn=fn, rhash=rhash, curhash=curhash)
         S.names.update(has_success=pres["success"], success=succ)
         return fn, [idnt], {}
 
@@ -222,10 +237,16 @@ def unit_qmap_features(tier=None, seed=None):
         isnan = (lambda x: V.is_nan_const(x))
         if name == "feat_meta_rating":
             S.ensure("unit.rating_dimensionless", fn.attrs.get("unit") == "")
-            if st["rated"]:
-                S.ensure("rating_is_the_current_rating", v is st["rval"] and not warns)
+            # "that curve's CURRENT ... rating, and NaN (with a warning) where a curve is ... unfitted or unrated": a
+            # cached rating counts only for a successfully fitted curve and the fit it was computed for
+            current = z3.And(fitted, st["rhash"].term == st["curhash"].term) if st["rated"] else z3.BoolVal(False)
+            if isnan(v):
+                S.ensure("unrated_gives_nan_and_one_warning", warns == ["DataMissingWarning"])
+                S.ensure("nan_only_when_unfitted_or_unrated", z3.Not(current), case={"rated": st["rated"]})
             else:
-                S.ensure("unrated_gives_nan_and_one_warning", isnan(v) and warns == ["DataMissingWarning"])
+                S.ensure("rating_is_the_current_rating", v is st["rval"] and not warns)
+                S.ensure("rating_only_for_the_current_fit", current, case={"rated": st["rated"]},
+                         witness="stale_rating")
             return
         if warns:
             S.ensure(f"nan_with_one_warning_only_when_unfitted.{name}",
@@ -266,7 +287,17 @@ def replay_qmap(ob):
         probs.append(f"modulus {em} vs {fp['params_fitted']['E'].value}")
     if not np.isnan(un) or not any(x.category is qmap.DataMissingWarning for x in w):
         probs.append("unfitted curve: no NaN / no warning")
-    return {"confirmed": bool(probs), "observed": probs}
+    # rated for one fit, refitted with another range, not rated again: the map must not show the old rating
+    old = idnt.rate_quality()
+    idnt.fit_model(range_x=(-2e-7, 0), range_type="absolute")
+    with warnings.catch_warnings():
+        warnings.simplefilter("ignore")
+        shown = qmap.QMap.feat_meta_rating(idnt)
+    cur = idnt.rate_quality()
+    if not (np.isnan(shown) or abs(shown - cur) < 1e-12):
+        probs.append(f"rating map shows {shown} (rating of the previous fit: {old}); current rating {cur}")
+    return {"confirmed": bool(probs), "observed": probs,
+            "input": "curve 0 of the 2x2 map: fit, rate, refit with range_x=(-2e-7, 0), read the rating feature"}
 
 
 # ------------------------------------------------------------------ bounded: recorded files / maps
